@@ -11,12 +11,16 @@
 package main
 
 import (
+	"bytes"
+	"context"
 	"fmt"
+	"os"
 	"sort"
 	"strconv"
 	"strings"
 
 	"github.com/paulmach/osm"
+	"github.com/paulmach/osm/osmpbf"
 
 	"verif/gen/pbfgen"
 	"verif/gen/pbfrun"
@@ -30,6 +34,9 @@ type fcase struct {
 	Damage string // damage class (Kind damage)
 	Pos    int    // file block index the damage is applied to (0 = header block when the file has one)
 	Procs  int
+	// Mode "" = Header() is called before the first Scan (as the other PBF checks do);
+	// "scan" = Scan is the first call, and after it returned false Scan and Err are called once more.
+	Mode string `json:",omitempty"`
 }
 
 // fileBlock is one framed block of a base file, kept in pieces so that the
@@ -41,9 +48,13 @@ type fileBlock struct {
 	frame   pbfgen.FileBlockOpts
 	objects []osm.Object
 	block   *pbfgen.Block // nil for the header block
+	whole   []byte        // hand-made bytes of the whole file block (extra.go)
 }
 
 func (fb *fileBlock) bytes() []byte {
+	if fb.whole != nil {
+		return fb.whole
+	}
 	return pbfgen.EncodeFileBlock(fb.typ, pbfgen.EncodeBlob(fb.payload, fb.blob), fb.frame)
 }
 
@@ -57,6 +68,26 @@ func baseFile(name string) []fileBlock {
 			Members: []pbfgen.Member{{Type: 0, Ref: seed + 1, Role: "stop"}, {Type: 1, Ref: seed + 10, Role: "forward"}}}
 		return []pbfgen.Group{{Dense: d}, {Ways: []pbfgen.Way{w}}, {Relations: []pbfgen.Relation{rl}}}
 	}
+	if name == "multi" {
+		// two dense groups, two ways and two relations per block (damage in the second one of
+		// each must still void the whole block), and string tables that shrink from block to
+		// block (the first invalid index of a block is a valid one of the block before it)
+		mk = func(seed int64) []pbfgen.Group {
+			d1 := &pbfgen.Dense{Info: true, Cols: pbfgen.ColsMask(63), KeysVals: true,
+				Nodes: []pbfgen.DNode{pbfgen.DenseNode(seed+1, seed+1), pbfgen.DenseNode(seed+2, seed+2)}}
+			d2 := &pbfgen.Dense{Info: true, Cols: pbfgen.ColsMask(1 | 4 | 16), KeysVals: true,
+				Nodes: []pbfgen.DNode{pbfgen.DenseNode(seed+3, seed+3), pbfgen.DenseNode(seed+4, seed+5)}}
+			way := func(k int64) pbfgen.Way {
+				return pbfgen.Way{ID: seed + 10 + k, Tags: [][2]string{{"highway", "path"}, {"name", fmt.Sprint(seed + k)}}, Info: pbfgen.FullInfo(seed + 3 + k),
+					Refs: []int64{seed + 1, seed + 2, seed + 7 + k}, Lats: []int64{1, 2, 3 + k}, Lons: []int64{4, 5, 6 + k}}
+			}
+			rel := func(k int64) pbfgen.Relation {
+				return pbfgen.Relation{ID: seed + 20 + k, Tags: [][2]string{{"type", "route"}, {"ref", fmt.Sprint(k)}}, Info: pbfgen.FullInfo(seed + 4 + k),
+					Members: []pbfgen.Member{{Type: 0, Ref: seed + 1, Role: "stop"}, {Type: 1, Ref: seed + 10 + k, Role: "forward"}}}
+			}
+			return []pbfgen.Group{{Dense: d1}, {Dense: d2}, {Ways: []pbfgen.Way{way(0), way(1)}}, {Relations: []pbfgen.Relation{rel(0), rel(1)}}}
+		}
+	}
 	raw := name == "raw"
 	var out []fileBlock
 	if name != "noheader" {
@@ -65,6 +96,13 @@ func baseFile(name string) []fileBlock {
 	}
 	for i := 0; i < 3; i++ {
 		b := &pbfgen.Block{Groups: mk(int64(100 * (i + 1)))}
+		if name == "multi" {
+			// the four block parameters written out with their default values
+			b.Granularity, b.DateGranularity, b.LatOffset, b.LonOffset = pbfgen.I32(100), pbfgen.I32(1000), pbfgen.I64(0), pbfgen.I64(0)
+			for k := 0; k < 2*(2-i); k++ {
+				b.ExtraStrings = append(b.ExtraStrings, fmt.Sprintf("unused%d", k))
+			}
+		}
 		out = append(out, fileBlock{typ: "OSMData", payload: b.PrimitiveBlock(), blob: pbfgen.BlobOpts{Raw: raw}, objects: b.Expected(), block: b})
 	}
 	return out
@@ -145,31 +183,94 @@ func main() {
 			procsCut = []int{1, 2, 3, 8}
 			procsDmg = []int{1, 2, 3, 8}
 		}
-		r.Rule(fmt.Sprintf("(a) every byte offset 0..len of base files %v as a cut point x procs %v; (b) every damage class of the catalogue (plus every wrong raw_size value 0..len+2) x every applicable file-block position x procs %v, files zlib and noheader; "+
+		r.Rule(fmt.Sprintf("(a) every byte offset 0..len of base files %v (thorough: plus multi) as a cut point x procs %v, plus Scan-first mode and procs 0 / 11 around every structural boundary; "+
+			"(b) every damage class of the catalogue (plus every wrong raw_size value 0..len+2) x every applicable file-block position x procs %v, files zlib and noheader (header block and middle block also Scan-first and procs 0 / 11); "+
+			"(c) structural damage: every node of the protobuf tree of a data block (file zlib: first and last data block; file multi: the second dense group / way / relation of the middle block; thorough: every data block of zlib, noheader, multi), of a header block with every optional field, of BlobHeader and Blob (header block and middle block) x {message ends inside a key, truncated unknown varint / fixed64 / known length-delimited field, declared length = rest of the parent + 1 and 2^31-1, 2^63, 2^64-1 (thorough also 2^31, 2^32-1, on every node), 11-byte varint, column one element short / present but empty / absent}; string-table indexes {table length, -1, 2^31-1, 2^31} at every indexing site; zlib container {bad method, window, check bits, preset dictionary, cut at 0,1,2,3,len-5,len-4,len-1 (thorough: every length)}; raw_size {-1, -2^31, 2^31-1, 32 MiB}; blob encodings 5,6,7,15; "+
+			"(d) fault sequences: 6 x 7 pairs of (damaged block, damaged next block | cut inside the next block) x procs; "+
 			"non-trivial = the fault is not at offset 0 / not in the first block, so a non-empty correct prefix must be delivered, or the cut is exactly on a block boundary; distinct = the case tuple", baseNames, procsCut, procsDmg))
 		r.Assume("block boundaries and per-block expected objects come from gen/pbfgen; each case runs in a worker process so that a panic in a library goroutine is attributed to its case")
 		r.Assume("not judged: id/type columns longer than the other columns, way lat/lon columns shorter than refs (silently tolerated by the format's readers)")
-		cat := catalogue()
+		r.Assume("not judged (the property text does not decide them): bytes after the last needed element of a column that is not walked to its end; messages that only lack a field the format calls required (way / relation id, sides of the header bbox, an empty DenseNodes message, a block without string table that nothing references); wire types 3, 4, 6, 7 in unknown fields; a wrong raw_size on a raw blob, a zlib blob without raw_size, bytes after the end of the zlib stream; varints wider than their field (an index of 2^32+k); Skip* options and filters on damaged input")
+		{
+			keys := []string{}
+			for k := range pendingClasses {
+				keys = append(keys, k)
+			}
+			sort.Strings(keys)
+			r.Assume("known findings (known_findings.json): structurally damaged elements the library accepts silently are enumerated and reported under the stable key accepted-silently/<class>: " + strings.Join(keys, ", "))
+			if cgoBuild {
+				r.Assume("not enumerated on the cgo build: " + pendingCgo + " (czlib does not insist on the stream trailer)")
+			}
+		}
+		cat := append(catalogue(), extraCatalogue()...)
+		nOriginal := len(catalogue())
 		var cases []fcase
+		classCount := map[string]int{}
 		if r.ReplayPath != "" {
 			var c fcase
 			r.LoadReplay(&c)
 			cases = append(cases, c)
 		} else {
-			for _, bn := range baseNames {
+			addDamage := func(file, name string, pos int, procs []int, modes ...string) {
+				if why, bad := pendingClasses[pendingKey(name)]; bad && os.Getenv("C06_NO_KNOWN") != "" {
+					_ = why
+					classCount["pending (not enumerated)"]++
+					return
+				}
+				if len(modes) == 0 {
+					modes = []string{""}
+				}
+				fam := name
+				if i := strings.Index(name, ":"); i > 0 {
+					fam = name[:i]
+				}
+				for _, p := range procs {
+					for _, m := range modes {
+						cases = append(cases, fcase{Kind: "damage", File: file, Damage: name, Pos: pos, Procs: p, Mode: m})
+						classCount[fam]++
+					}
+				}
+			}
+			totals := map[string]int{}
+			bounds := map[string][]int{} // start of every block, then the length
+			for _, bn := range append(append([]string{}, baseNames...), "multi") {
 				total := 0
 				for _, fb := range baseFile(bn) {
+					bounds[bn] = append(bounds[bn], total)
 					total += len(fb.bytes())
 				}
-				for cut := 0; cut <= total; cut++ {
+				bounds[bn] = append(bounds[bn], total)
+				totals[bn] = total
+			}
+			cutFiles := baseNames
+			if !r.Quick() {
+				cutFiles = append(append([]string{}, baseNames...), "multi")
+			}
+			for _, bn := range cutFiles {
+				for cut := 0; cut <= totals[bn]; cut++ {
 					for _, p := range procsCut {
 						cases = append(cases, fcase{Kind: "cut", File: bn, Cut: cut, Procs: p})
+					}
+					// Scan as the first call, Scan / Err again after the end (quick: one decoder count)
+					if bn == "zlib" || !r.Quick() {
+						cases = append(cases, fcase{Kind: "cut", File: bn, Cut: cut, Procs: 2, Mode: "scan"})
+					}
+				}
+			}
+			// decoder counts 0 (documented as "at least one") and 11 (the first count with unbuffered
+			// channels, 10/procs == 0): the offsets around every structural boundary
+			for _, b := range bounds["zlib"] {
+				for _, d := range []int{-1, 0, 1, 4, 5, 20} {
+					if cut := b + d; cut >= 0 && cut <= totals["zlib"] {
+						for _, p := range []int{0, 11} {
+							cases = append(cases, fcase{Kind: "cut", File: "zlib", Cut: cut, Procs: p})
+						}
 					}
 				}
 			}
 			for _, bn := range []string{"zlib", "noheader"} {
 				fbs := baseFile(bn)
-				for _, d := range cat {
+				for di, d := range cat {
 					for pos := range fbs {
 						isHeader := fbs[pos].block == nil
 						if (isHeader && !d.header) || (!isHeader && !d.data) {
@@ -178,8 +279,13 @@ func main() {
 						if d.name == "type:osmheader-again" && pos == 0 {
 							continue // a header as the first block is simply a valid file
 						}
-						for _, p := range procsDmg {
-							cases = append(cases, fcase{Kind: "damage", File: bn, Damage: d.name, Pos: pos, Procs: p})
+						if di >= nOriginal && strings.Contains(d.name, "-32m-real-") && (pos != len(fbs)-1 && pos != 0 || bn != "zlib") {
+							continue // 32 MiB of input per case: header block and last block of one file
+						}
+						addDamage(bn, d.name, pos, procsDmg)
+						if bn == "zlib" && (pos == 0 || pos == 2) {
+							addDamage(bn, d.name, pos, []int{1}, "scan")
+							addDamage(bn, d.name, pos, []int{0, 11})
 						}
 					}
 				}
@@ -189,13 +295,74 @@ func main() {
 						if k == len(fbs[pos].payload) {
 							continue
 						}
-						for _, p := range procsDmg {
-							cases = append(cases, fcase{Kind: "damage", File: bn, Damage: fmt.Sprintf("blob:rawsize=%d", k), Pos: pos, Procs: p})
+						addDamage(bn, fmt.Sprintf("blob:rawsize=%d", k), pos, procsDmg)
+					}
+				}
+			}
+			// structural damage at every nesting level and the string index alphabet (wiretree.go, extra.go)
+			full := !r.Quick()
+			type fp struct {
+				file string
+				pos  []int
+			}
+			plan := []fp{{"zlib", []int{1, 3}}, {"multi", []int{2}}}
+			if full {
+				plan = []fp{{"zlib", []int{1, 2, 3}}, {"noheader", []int{0, 1, 2}}, {"multi", []int{1, 2, 3}}}
+			}
+			for _, pl := range plan {
+				fbs := baseFile(pl.file)
+				for _, pos := range pl.pos {
+					root := parseMsg("PrimitiveBlock", "", fbs[pos].payload)
+					for _, op := range append(structuralOps(root, full), stringIndexOps(root)...) {
+						if pl.file == "multi" && !full && !(strings.Contains(op, "group1.") || strings.Contains(op, ".way1") || strings.Contains(op, ".rel1") || strings.Contains(op, "granularity:") || strings.Contains(op, "_offset:")) {
+							continue // quick: only the second dense group / way / relation of the block and the block parameters
 						}
+						addDamage(pl.file, "pb:"+op, pos, procsDmg)
+					}
+				}
+			}
+			{
+				fbs := baseFile("zlib")
+				for _, op := range structuralOps(parseMsg("HeaderBlock", "", richHeader().Bytes()), full) {
+					addDamage("zlib", "hb:"+op, 0, procsDmg)
+				}
+				poss := []int{0, 2}
+				if full {
+					poss = []int{0, 1, 2, 3}
+				}
+				for _, pos := range poss {
+					for _, op := range blobHeaderOps(&fbs[pos], full) {
+						addDamage("zlib", "bh:"+op, pos, procsDmg)
+					}
+					for _, op := range blobOps(&fbs[pos], full) {
+						if i := strings.Index(op, ":zcut-"); i > 0 && cgoBuild && os.Getenv("C06_PENDING") == "" {
+							if k, _ := strconv.Atoi(op[i+len(":zcut-"):]); zcutYieldsAll(&fbs[pos], k) {
+								classCount["pending (not enumerated)"]++
+								continue
+							}
+						}
+						addDamage("zlib", "bl:"+op, pos, procsDmg)
+					}
+				}
+			}
+			// fault sequences: two damaged blocks in a row (reader-side and decoder-side faults in
+			// both orders), and a damaged block followed by a cut: the first fault decides
+			seq := []string{"blob:garbage", "type:unknown", "frame:datasize-negative", "blob:zlib-corrupt", "way:tag-key-out-of-range", "dense:no-lats"}
+			procsSeq := []int{1, 2, 3}
+			if full {
+				procsSeq = procsCut
+			}
+			for _, a := range seq {
+				for _, b := range append(append([]string{}, seq...), "cut") {
+					addDamage("zlib", "seq:"+a+"+"+b, 2, procsSeq)
+					if full {
+						addDamage("zlib", "seq:"+a+"+"+b, 1, procsSeq)
+						addDamage("noheader", "seq:"+a+"+"+b, 0, procsSeq)
 					}
 				}
 			}
 		}
+		r.Set("damage_cases_by_family", classCount)
 		names := []string{}
 		for _, d := range cat {
 			names = append(names, d.name)
@@ -210,10 +377,14 @@ func main() {
 }
 
 func desc(c fcase) string {
-	if c.Kind == "cut" {
-		return fmt.Sprintf("file=%s cut at byte %d procs=%d", c.File, c.Cut, c.Procs)
+	mode := ""
+	if c.Mode != "" {
+		mode = " mode=" + c.Mode
 	}
-	return fmt.Sprintf("file=%s damage=%s in file block %d procs=%d", c.File, c.Damage, c.Pos, c.Procs)
+	if c.Kind == "cut" {
+		return fmt.Sprintf("file=%s cut at byte %d procs=%d%s", c.File, c.Cut, c.Procs, mode)
+	}
+	return fmt.Sprintf("file=%s damage=%s in file block %d procs=%d%s", c.File, c.Damage, c.Pos, c.Procs, mode)
 }
 
 // key: oracle clause + fault class. For cuts the class is the position of the
@@ -228,8 +399,15 @@ func key(c fcase, clause string) string {
 		where = "first-block"
 	}
 	dmg := c.Damage
+	if _, known := pendingClasses[pendingKey(dmg)]; known && clause == "invented-or-extra-objects" {
+		// the recorded behaviour of a known finding: one key per class
+		return "accepted-silently/" + pendingKey(dmg)
+	}
 	if strings.HasPrefix(dmg, "blob:rawsize=") {
 		dmg = "blob:rawsize-wrong"
+	}
+	if strings.Contains(dmg, ":zcut-") {
+		dmg = dmg[:strings.Index(dmg, ":zcut-")] + ":zcut"
 	}
 	return clause + "/" + dmg + "/" + where
 }
@@ -288,30 +466,30 @@ func runCase(r *kit.Run, c fcase, cat []damage) {
 		data = data[:c.Cut]
 		nontrivial = len(want) > 0 || !wantErr
 	case "damage":
-		var d *damage
-		for i := range cat {
-			if cat[i].name == c.Damage {
-				d = &cat[i]
-			}
+		// fault sequences: "seq:<first>+<second>" damages block Pos and block Pos+1,
+		// "seq:<first>+cut" damages block Pos and cuts the stream in the middle of block Pos+1
+		first, second := c.Damage, ""
+		if strings.HasPrefix(c.Damage, "seq:") {
+			i := strings.LastIndex(c.Damage, "+")
+			first, second = c.Damage[len("seq:"):i], c.Damage[i+1:]
 		}
-		if strings.HasPrefix(c.Damage, "blob:rawsize=") {
-			// every wrong uncompressed size, not only +-3
-			k, _ := strconv.Atoi(strings.TrimPrefix(c.Damage, "blob:rawsize="))
-			d = &damage{name: c.Damage, apply: func(fb *fileBlock) {
-				fb.blob.Raw, fb.blob.RawSizeDelta = false, int64(k-len(fb.payload))
-			}}
-		}
-		if d == nil {
-			kit.Fatalf("unknown damage %q", c.Damage)
-		}
+		d := lookupDamage(cat, first)
 		for i := range fbs {
 			if i == c.Pos {
 				d.apply(&fbs[i])
 			}
+			if i == c.Pos+1 && second != "" && second != "cut" {
+				lookupDamage(cat, second).apply(&fbs[i])
+			}
 			if i < c.Pos {
 				want = append(want, fbs[i].objects...)
 			}
-			data = append(data, fbs[i].bytes()...)
+			b := fbs[i].bytes()
+			if i == c.Pos+1 && second == "cut" {
+				data = append(data, b[:len(b)/2]...)
+				break
+			}
+			data = append(data, b...)
 		}
 		nontrivial = len(want) > 0
 	}
@@ -319,8 +497,31 @@ func runCase(r *kit.Run, c fcase, cat []damage) {
 	if r.WantSample() && nontrivial {
 		r.Sample(map[string]interface{}{"case": desc(c), "bytes": len(data), "expected_prefix": pbfgen.IDs(want), "expect_error": wantErr})
 	}
-	res := pbfrun.Scan(data, c.Procs, nil)
 	fail := func(clause, msg string) { r.Violation(key(c, clause), desc(c)+": "+msg, c) }
+	var res pbfrun.Result
+	if c.Mode == "scan" {
+		s := osmpbf.New(context.Background(), bytes.NewReader(data), c.Procs)
+		for s.Scan() {
+			res.Objects = append(res.Objects, s.Object())
+			if len(res.Objects) > len(want)+64 {
+				break
+			}
+		}
+		res.Err = s.Err()
+		again := s.Scan()
+		err2 := s.Err()
+		s.Close()
+		if again {
+			fail("scan-true-after-the-end", fmt.Sprintf("Scan returned false after %d objects (Err()=%v) and true when called once more", len(res.Objects), res.Err))
+			return
+		}
+		if (res.Err == nil) != (err2 == nil) {
+			fail("error-not-sticky", fmt.Sprintf("Err()=%v right after the scan ended, %v after one more Scan", res.Err, err2))
+			return
+		}
+	} else {
+		res = pbfrun.Scan(data, c.Procs, nil)
+	}
 	if d := pbfgen.DiffObjects(res.Objects, want); d != "" {
 		if len(res.Objects) > len(want) {
 			fail("invented-or-extra-objects", d)
@@ -336,4 +537,41 @@ func runCase(r *kit.Run, c fcase, cat []damage) {
 	if !wantErr && res.Err != nil {
 		fail("error-on-clean-boundary", fmt.Sprintf("Err()=%v for a stream that ends on a block boundary", res.Err))
 	}
+}
+
+// pendingKey maps a damage name to its entry of pendingClasses: the name itself, or
+// for the structural classes the name without indexes in the path.
+func pendingKey(name string) string {
+	if _, ok := pendingClasses[name]; ok {
+		return name
+	}
+	out := []byte{}
+	for i := 0; i < len(name); i++ {
+		ch := name[i]
+		if ch >= '0' && ch <= '9' && i > 0 && (name[i-1] >= 'a' && name[i-1] <= 'z') && (i+1 == len(name) || name[i+1] == '.' || name[i+1] == ':') && strings.HasPrefix(name, "pb:") {
+			continue
+		}
+		out = append(out, ch)
+	}
+	return string(out)
+}
+
+func lookupDamage(cat []damage, name string) *damage {
+	for i := range cat {
+		if cat[i].name == name {
+			return &cat[i]
+		}
+	}
+	if strings.HasPrefix(name, "blob:rawsize=") {
+		// every wrong uncompressed size, not only +-3
+		k, _ := strconv.Atoi(strings.TrimPrefix(name, "blob:rawsize="))
+		return &damage{name: name, apply: func(fb *fileBlock) {
+			fb.blob.Raw, fb.blob.RawSizeDelta = false, int64(k-len(fb.payload))
+		}}
+	}
+	if d := parametric(name); d != nil {
+		return d
+	}
+	kit.Fatalf("unknown damage %q", name)
+	return nil
 }
